@@ -8,10 +8,10 @@ from pbmon.oracle import c10_limits as O
 PROPERTY = "C10"
 NSHARDS = {"quick": 4, "thorough": 16}
 CLAUSES = {
-    "C10.bracket": 100000,   # limits of pop_t bracket the GEBVs of pop_t and of every later population
-    "C10.monotone": 40000,   # usl never increases / lsl never decreases (against every earlier generation)
-    "C10.fixed": 4000,       # all loci fixed (integer counts) => usl == lsl == common GEBV
-    "C10.lost": 20000,       # integer count 0 stays 0; reported frequency exactly 0/1 stays exactly 0/1
+    "C10.bracket": 150000,   # limits of pop_t bracket the GEBVs of pop_t and of every later population
+    "C10.monotone": 60000,    # usl never increases / lsl never decreases (against every earlier generation)
+    "C10.fixed": 20000,      # all loci fixed (integer counts) => usl == lsl == common GEBV
+    "C10.lost": 25000,       # integer count 0 stays 0; reported frequency exactly 0/1 stays exactly 0/1
 }
 HOOKS_REQUIRED = ["mate calls", "select_taxa calls", "concat_taxa calls", "usl/lsl calls",
                   "fixed populations with ploidy*n not a power of two",
@@ -44,7 +44,7 @@ PROTOS = [("SelfCross", 1), ("TwoWayCross", 2), ("TwoWayDHCross", 2), ("ThreeWay
 CRITN = [N for N in range(1, 800) if (1.0 / N) * N != 1.0]
 CRIT = {pl: [N // pl for N in CRITN if N % pl == 0 and N // pl <= 200] for pl in (1, 2, 3, 4)}
 NEIGH = [48, 50, 97, 99, 102, 104, 100, 64, 128, 32, 16]
-SMALL = [1, 1, 2, 2, 3, 4, 5, 6, 7, 8, 10, 12]
+SMALL = [1, 2, 3, 4, 5, 6, 7, 8, 10, 12, 15, 20, 24]
 
 
 def proto_class(name):
@@ -58,7 +58,7 @@ def pick_size(g, ploidy=2, cap=None):
         s = int(g.choice(CRIT[ploidy]))
     elif r < 0.6:
         s = int(g.choice(NEIGH))
-    elif r < 0.9:
+    elif r < 0.8:
         s = int(g.choice(SMALL))
     else:
         s = int(g.integers(1, 200))
@@ -134,16 +134,18 @@ def make_model(g, u, ntrait):
     beta = g.normal(size=(q, ntrait)) * float(g.choice([0.0, 1.0, 10.0, 100.0]))
     if g.random() < 0.3:
         beta = numpy.round(beta)
-    return DenseAdditiveLinearGenomicModel(beta=beta, u_misc=None, u_a=u.copy(), trait=numpy.array(["T%d" % k for k in range(ntrait)], dtype=object)), beta
+    trait = numpy.array(["T%d" % k for k in range(ntrait)], dtype=object)
+    # (DenseLinearGenomicModel has the same limit code but is abstract in this tree: not drivable)
+    return DenseAdditiveLinearGenomicModel(beta=beta, u_misc=None, u_a=u.copy(), trait=trait), beta, True
 
 
 # ---------------------------------------------------------------- observation of one generation
-def read_generation(ctx, mon, model, genotyper, pg, t, op, opsite, g):
+def read_generation(ctx, mon, model, has_unscale, genotyper, pg, t, op, opsite, g):
     """Call the real usl/lsl/gebv/afreq on population ``pg`` through every input form and hand the numbers to the monitor."""
     mat = numpy.asarray(pg.mat)
     ploidy = int(mat.shape[0]); n = int(mat.shape[1])
     Zi = mat.astype(numpy.int64).sum(0)
-    gref = Zi @ model.u_a           # oracle: breeding value without intercept, from the integer genotypes
+    gref = Zi @ mon.u               # oracle: breeding value without intercept, from the integer genotypes
     u_scale = mon.tol(ploidy, 0.0)
     # library-reported breeding values
     gsc, gun, offset = gref, None, numpy.zeros(gref.shape[1])
@@ -169,21 +171,22 @@ def read_generation(ctx, mon, model, genotyper, pg, t, op, opsite, g):
     views = []
     count = mat.astype(numpy.int64).sum((0, 1))
     pex = count / float(ploidy * n)   # correctly rounded frequency: exactly 0 / 1 iff count is 0 / ploidy*n
-    views.append(("frequency", None, lambda uns: (model.usl_numpy(pex, ploidy, uns), model.lsl_numpy(pex, ploidy, uns))))
-    views.append(("phased", pg, lambda uns: (model.usl(pg, unscale=uns), model.lsl(pg, unscale=uns))))
+    kw = (lambda uns: {"unscale": uns}) if has_unscale else (lambda uns: {})
+    views.append(("frequency", None, lambda uns: (model.usl_numpy(pex, ploidy, **kw(uns)), model.lsl_numpy(pex, ploidy, **kw(uns)))))
+    views.append(("phased", pg, lambda uns: (model.usl(pg, **kw(uns)), model.lsl(pg, **kw(uns)))))
     try:
         ug = genotyper.genotype(pg)
-        views.append(("unphased", ug, lambda uns: (model.usl(ug, unscale=uns), model.lsl(ug, unscale=uns))))
+        views.append(("unphased", ug, lambda uns: (model.usl(ug, **kw(uns)), model.lsl(ug, **kw(uns)))))
     except Exception as e:
         ctx.raised("DenseUnphasedGenotyping.genotype", e)
     if ploidy == 2 and g.random() < 0.5:
-        views.append(("ndarray", None, lambda uns: (model.usl(Z, unscale=uns), model.lsl(Z, unscale=uns))))   # default ploidy
+        views.append(("ndarray", None, lambda uns: (model.usl(Z, **kw(uns)), model.lsl(Z, **kw(uns)))))   # default ploidy
     else:
-        views.append(("ndarray", None, lambda uns: (model.usl(Z, ploidy=ploidy, unscale=uns), model.lsl(Z, ploidy=ploidy, unscale=uns))))
+        views.append(("ndarray", None, lambda uns: (model.usl(Z, ploidy=ploidy, **kw(uns)), model.lsl(Z, ploidy=ploidy, **kw(uns)))))
     limits, afreqs = {}, {}
     for name, obj, fn in views:
         by = {}
-        for sc, uns in (("sc", False), ("un", True)):
+        for sc, uns in ((("sc", False), ("un", True)) if has_unscale else (("sc", False),)):
             try:
                 by[sc] = fn(uns); ctx.hook("usl/lsl calls", 2)
             except Exception as e:
@@ -194,6 +197,7 @@ def read_generation(ctx, mon, model, genotyper, pg, t, op, opsite, g):
                 afreqs[name] = (obj.afreq(), O.defining_class(obj, "afreq"))
             except Exception as e:
                 ctx.raised("afreq (%s)" % name, e)
+    ctx.sumnote("generations fixed at all loci" if numpy.all((count == 0) | (count == ploidy * n)) else "generations with segregating loci")
     if (ploidy * n) in CRITN:
         ctx.hook("generations at a reciprocal-rounding-critical size")
     if mon.gens and O.is_pow2(mon.gens[-1].N) != O.is_pow2(ploidy * n):
@@ -234,7 +238,7 @@ def do_mate(ctx, g, protos, pg, gref, size, force=None):
         r = g.random(); s = int(g.integers(2 ** 31))
         rng = numpy.random.Generator(numpy.random.PCG64(s)) if r < 0.7 else numpy.random.RandomState(s)
         protos[name] = proto_class(name)(rng=rng)
-    rule = ["best", "worst", "random", "pair", "single", "all"][int(g.integers(6))]
+    rule = str(g.choice(["best", "worst", "random", "all", "pair", "single"], p=[0.27, 0.2, 0.25, 0.13, 0.1, 0.05]))
     n = pg.ntaxa
     nsel = {"pair": 2, "single": 1, "all": n}.get(rule, int(g.integers(1, min(n, 8) + 1)))
     pool = select(g, gref, nsel, "random" if rule in ("pair", "single") else rule)
@@ -251,7 +255,7 @@ def do_mate(ctx, g, protos, pg, gref, size, force=None):
             nprogeny = int(size)
     else:
         nmating = g.integers(1, 4, ncross).astype("int64"); nprogeny = g.integers(1, 6, ncross).astype("int64")
-    nself = int(g.choice([0, 0, 0, 0, 1, 2]))
+    nself = int(g.choice([0, 0, 0, 0, 0, 0, 1, 2]))
     op = {"op": "mate", "protocol": name, "parents": rule, "xconfig": xc.tolist(), "nmating": numpy.asarray(nmating).tolist(),
           "nprogeny": numpy.asarray(nprogeny).tolist(), "nself": nself}
     out = protos[name].mate(pg, xc, nmating, nprogeny, nself=nself)
@@ -274,7 +278,7 @@ def case_history(ctx, c, family="hist"):
     coords = [c, family]
     chain = family == "chain"
     ploidy = int(g.choice([1, 2, 4, 4, 1, 3])) if chain else 2
-    fcls = ["random", "skewed", "skewed", "inbred", "singletons", "complementary", "fixed"][int(g.integers(7))]
+    fcls = ["random", "random", "skewed", "skewed", "skewed", "inbred", "inbred", "singletons", "singletons", "complementary", "fixed"][int(g.integers(11))]
     if chain:
         n0 = int(g.choice([200, 197, 196, 187, 161, 120, 110, 64, 30])); m = int(g.integers(1, 25))
     else:
@@ -284,23 +288,27 @@ def case_history(ctx, c, family="hist"):
     u, ucls = gen_effects(g, m, ntrait)
     mat0 = gen_founder_mat(g, n0, m, ploidy, fcls)
     pg = make_pop(g, mat0, int(g.integers(1, 4)))
-    model, beta = make_model(g, u, ntrait)
+    model, beta, has_unscale = make_model(g, u, ntrait)
     genotyper = DenseUnphasedGenotyping()
     ngen = int(g.integers(3, 26)) if g.random() < 0.3 else int(g.integers(3, 11))
-    tail = (not chain) and g.random() < 0.45
+    tail = (not chain) and g.random() < 0.35
     history = [{"op": "founders", "class": fcls, "ntaxa": n0, "nvrnt": m, "ploidy": ploidy}]
     icls = ("selection-only chain, ploidy %d" % ploidy) if chain else "mating history"
-    mon = O.HistoryMonitor(ctx, u, icls, coords, history)
+    mon = O.HistoryMonitor(ctx, u, icls, coords, history, model)
     protos = {}
-    G, gref = read_generation(ctx, mon, model, genotyper, pg, 0, history[0], "founders", g)
+    G, gref = read_generation(ctx, mon, model, has_unscale, genotyper, pg, 0, history[0], "founders", g)
     t = 0
     plan = []
     for _ in range(ngen):
         plan.append("subset" if chain else ["mate", "mate", "mate", "mate", "subset", "subset", "merge"][int(g.integers(7))])
     if tail:
         plan += ["tail-dh", "tail-self", "tail-cross", "tail-subset", "tail-self"][: int(g.integers(2, 6))]
+    nfixed_run = 0
     for kind in plan:
         n = pg.ntaxa
+        nfixed_run = nfixed_run + 1 if G.allfixed else 0
+        if nfixed_run > 4:     # nothing can change any more; a few re-sized fixed generations are enough
+            break
         try:
             if kind == "mate":
                 new, op, site = do_mate(ctx, g, protos, pg, gref, pick_size(g))
@@ -331,20 +339,20 @@ def case_history(ctx, c, family="hist"):
         t += 1
         history.append(op)
         pg = new
-        G, gref = read_generation(ctx, mon, model, genotyper, pg, t, op, site, g)
+        G, gref = read_generation(ctx, mon, model, has_unscale, genotyper, pg, t, op, site, g)
     seg = bool(numpy.any(mon.gens[0].present & ~mon.gens[0].fixed1)) or bool(numpy.any(u != 0))
     ctx.case("%s:%s" % (family, fcls if not chain else "ploidy %d/%s" % (ploidy, fcls)), mat0, u, beta, repr(history[1:]), trivial=(t == 0 or not seg))
     ctx.sumnote("generations observed", t + 1)
     if mon.gens[-1].allfixed:
         ctx.sumnote("histories ending fixed at all loci")
     if c % 101 == 0:
-        ctx.sample({"family": family, "founders": history[0], "effects": ucls, "u_a": u.tolist(), "beta": beta.tolist(),
+        ctx.sample({"family": family, "model": type(model).__name__, "founders": history[0], "effects": ucls, "u_a": u.tolist(), "beta": beta.tolist(),
                     "history": [{k: v for k, v in h.items() if k not in ("indices", "survivors")} for h in history[1:8]],
                     "sizes": [x.n for x in mon.gens]})
 
 
-FAMILIES = {"hist": (lambda ctx, c: case_history(ctx, c, "hist"), 1600, 16 * 2600),
-            "chain": (lambda ctx, c: case_history(ctx, c, "chain"), 600, 16 * 900)}
+FAMILIES = {"hist": (lambda ctx, c: case_history(ctx, c, "hist"), 1800, 16 * 12000),
+            "chain": (lambda ctx, c: case_history(ctx, c, "chain"), 700, 16 * 4000)}
 
 
 def run_shard(ctx):
